@@ -336,7 +336,7 @@ def _ty_from_ast(node) -> Ty:
             return ty.OBJECT
         if n in names:
             return ty.Cls(names[n])
-        if n in ("TD1", "TD2"):
+        if n in ("TD1", "TD2", "TD3"):
             return [s for s in tygen.SPECIAL if s.kind == "TypedDict" and s.extra == n][0]
         if n in ("NT", "NS"):
             return [s for s in tygen.SPECIAL if s.kind == "NewType" and s.extra[0] == n][0]
